@@ -45,15 +45,28 @@ fn real_main() -> i32 {
             };
             let seed = arg_value(&args, "--seed").and_then(|v| v.parse::<u64>().ok()).unwrap_or(1);
             let index = arg_value(&args, "--index").and_then(|v| v.parse::<u64>().ok()).unwrap_or(0);
-            let case = driver::regenerate_case(prop, seed, index, &[]);
+            // the case as the main stream generates it (known-finding shapes avoided), after `--history k` earlier
+            // runs of the stream in the same worker process
+            let avoid: Vec<String> = driver::load_known().iter().filter(|k| k.property == prop.id() && k.status == "known").map(|k| k.matcher.clone()).collect();
+            let history = arg_value(&args, "--history").and_then(|v| v.parse::<u64>().ok()).unwrap_or(0).min(index);
+            let mut cases: Vec<serde_json::Value> = (index - history..=index).map(|i| driver::regenerate_case(prop, seed, i, &avoid)).collect();
+            // `--pre a-b`: runs a..=b of the stream first (any order of indexes)
+            if let Some(r) = arg_value(&args, "--pre") {
+                let mut it = r.split('-').filter_map(|x| x.parse::<u64>().ok());
+                if let (Some(a), Some(b)) = (it.next(), it.next()) {
+                    let mut pre: Vec<serde_json::Value> = (a..=b).map(|i| driver::regenerate_case(prop, seed, i, &avoid)).collect();
+                    pre.extend(cases);
+                    cases = pre;
+                }
+            }
             if args.iter().any(|a| a == "--print") {
-                println!("{}", serde_json::to_string_pretty(&case).unwrap());
+                println!("{}", serde_json::to_string_pretty(cases.last().unwrap()).unwrap());
             }
             let t0 = std::time::Instant::now();
-            let pool = driver::Pool { prop, workers: 1, duck: arg_value(&args, "--duck").map(PathBuf::from), avoid: vec![] };
-            match pool.eval_cases(&[case]) {
+            let pool = driver::Pool { prop, workers: 1, duck: arg_value(&args, "--duck").map(PathBuf::from), avoid };
+            match pool.eval_cases(&cases) {
                 Ok(rs) => {
-                    let r = &rs[0];
+                    let r = rs.last().unwrap();
                     println!("verdict={} steps={} nt={} wall={:.3}s", r["verdict"], r["steps"], r["nt"], t0.elapsed().as_secs_f64());
                     if args.iter().any(|a| a == "--log") {
                         if let Some(l) = r["log"].as_array() {
